@@ -13,12 +13,15 @@ const rule = "runs of 1-30 publishes on a fresh persistent bus, each tagged ok /
 var collMem = vkit.NewCollector("C13", "TestFailuresMemory", rule)
 var collSQL = vkit.NewCollector("C13", "TestFailuresSQLite", rule)
 
+var collConc = vkit.NewCollector("C13", "TestConcurrentOutcome", "2-6 goroutines publish 1-5 events each on one persistent bus with a real 2 ms persistence timeout; the store (memory, optionally refusing calls whose context is done) rejects, stalls until the context ends, or delays chosen events, so publishers also queue behind each other's slow appends. Oracle, for every event and whatever the interleaving: delivered once, exactly one Append call reached the store, at most once in the log, and - with an error handler - in the log or reported, never both and never neither; an event the store refused is not in the log. Non-trivial = >=2 publishers with a stalled or delayed append among them.")
+
 func TestMain(m *testing.M) { vkit.Main(m) }
 
 func TestFailuresMemory(t *testing.T) { vkit.Check(t, collMem, Gen("memory"), Run) }
+func TestConcurrentOutcome(t *testing.T) { vkit.Check(t, collConc, GenConc, RunConc) }
 func TestFailuresSQLite(t *testing.T) { vkit.Check(t, collSQL, Gen("sqlite"), Run) }
 
 func TestReplay(t *testing.T) {
 	r := vkit.NeedReplay(t)
-	_ = vkit.ReplayCase(t, r, collMem, Run) || vkit.ReplayCase(t, r, collSQL, Run)
+	_ = vkit.ReplayCase(t, r, collMem, Run) || vkit.ReplayCase(t, r, collSQL, Run) || vkit.ReplayCase(t, r, collConc, RunConc)
 }
